@@ -1,12 +1,14 @@
-"""pyvc.driver -- verify a set of functions: symbolic execution in this process, solving in a pool."""
+"""pyvc.driver -- verify a set of functions.
+
+phase 1 (pool): one task per function: read the source, run the symbolic executor with fresh
+                name counters (so the VCs of a function do not depend on what else is in the run),
+                return the obligations as SMT-LIB text;
+phase 2 (pool): solve every obligation (quick budget, then full budget, then two more seeds);
+phase 3 (pool): finite-scope counter-model search for what stays open, one task per function.
+"""
 from __future__ import annotations
 import multiprocessing as mp, os, time, traceback
-import z3
-from .core import Sorts
-from .source import Source
-from .engine import Unsupported
 from . import solve
-from .run import load_registry, refute_function
 
 
 def _init_worker():
@@ -14,81 +16,124 @@ def _init_worker():
     signal.signal(signal.SIGINT, signal.SIG_IGN)
 
 
+def symexec_function(args):
+    key, sidecars, repo = args
+    t0 = time.time()
+    out = dict(function=key, obligations=[], error=None, unsupported=None, stats={}, assumed=[], calls=[], lib=[])
+    obs_out = []
+    try:
+        import z3
+        from . import core
+        import itertools
+        core._fresh = itertools.count()        # deterministic names per function
+        from .core import Sorts
+        from .source import Source
+        from .engine import Unsupported
+        from .run import load_registry
+        from .verify import Engine
+        try:
+            src = Source(repo)
+            R = load_registry(sidecars)
+            eng = Engine(src, R, Sorts())
+            mod, fdef = src.function(key)
+            out["file"] = os.path.relpath(mod.path, src.repo)
+            out["span"] = list(mod.span(fdef))
+            out["sha1"] = mod.sha1(fdef)
+            obs = eng.verify(key)
+            out["stats"] = dict(eng.stats)
+            out["assumed"] = sorted(eng.assumed)
+            out["calls"] = sorted(eng.calls_used)
+            out["lib"] = sorted(eng.lib.used)
+            for ob in obs:
+                d = dict(name=ob.name, base=getattr(ob, "base", ob.name), kind=ob.kind, tags=list(ob.tags), status=ob.status,
+                         backend=ob.backend, seconds=0.0, text=ob.text, lineno=ob.lineno, reason="",
+                         path=[f"L{ln}:{what}" for ln, what in ob.path])
+                d["smt2"] = None if ob.status == "discharged" else solve.to_smt2(ob)
+                obs_out.append(d)
+        except Unsupported as ex:
+            out["unsupported"] = str(ex)
+    except Exception as ex:
+        out["error"] = repr(ex) + "\n" + traceback.format_exc()
+    out["symexec_s"] = round(time.time() - t0, 2)
+    return out, obs_out
+
+
 def run_functions(keys, sidecars=None, tier="quick", seed=0, jobs=None, repo=None, do_refute=True, log=None):
-    from .verify import Engine
+    from .run import refute_function
     jobs = jobs or int(os.environ.get("PYVC_JOBS", "16"))
     budget = 20000 if tier == "quick" else 120000
     ctx = mp.get_context("fork")
     results = []
-    with ctx.Pool(jobs, initializer=_init_worker) as pool:
-        src = Source(repo)
-        per_func = []
-        for key in keys:
-            t0 = time.time()
-            out = dict(function=key, obligations=[], error=None, unsupported=None, stats={}, assumed=[], calls=[], lib=[])
-            try:
-                R = load_registry(sidecars)
-                eng = Engine(src, R, Sorts())
-                mod, fdef = src.function(key)
-                out["file"] = os.path.relpath(mod.path, src.repo)
-                out["span"] = list(mod.span(fdef))
-                out["sha1"] = mod.sha1(fdef)
-                obs = eng.verify(key)
-                out["stats"] = dict(eng.stats)
-                out["assumed"] = sorted(eng.assumed)
-                out["calls"] = sorted(eng.calls_used)
-                out["lib"] = sorted(eng.lib.used)
-                per_func.append((out, obs, t0))
-            except Unsupported as ex:
-                out["unsupported"] = str(ex)
-                per_func.append((out, [], t0))
-            except Exception as ex:
-                out["error"] = repr(ex) + "\n" + traceback.format_exc()
-                per_func.append((out, [], t0))
-            if log:
-                log(f"symexec {key}: {len(per_func[-1][1])} obligations {out['stats']} {out['unsupported'] or out['error'] or ''}")
-        all_obs = []
-        for out, obs, t0 in per_func:
-            guards = [ob for ob in obs if ob.kind == "must_fail"]
-            for g in guards:
-                g.is_guard = True
-            all_obs.extend(obs)
-        # vacuity guards get the quick budget only
-        guards = [ob for ob in all_obs if ob.kind == "must_fail"]
-        real = [ob for ob in all_obs if ob.kind != "must_fail"]
-        if guards:
-            texts = [solve.to_smt2(g) for g in guards]
-            res = pool.map(solve._pool_check, [(t, 3000, seed, False) for t in texts], chunksize=2)
-            for g, (st, be, reason, secs) in zip(guards, res):
-                g.status = st
-        solve.solve_pool(real, pool, timeout_ms=budget, seed=seed)
+    t_all = time.time()
+    with ctx.Pool(jobs, initializer=_init_worker, maxtasksperchild=200) as pool:
+        per_func = pool.map(symexec_function, [(k, sidecars, repo) for k in keys], chunksize=1)
         if log:
-            log(f"solved {len(real)} obligations, open: {sum(1 for o in real if o.status != 'discharged')}")
-        # refutation of what stays open, one task per function
+            for out, obs in per_func:
+                log(f"symexec {out['function']}: {len(obs)} obligations {out['stats']} {out['symexec_s']}s {out['unsupported'] or out['error'] or ''}")
+        todo = [(fi, oi) for fi, (out, obs) in enumerate(per_func) for oi, ob in enumerate(obs) if ob["status"] is None]
+
+        def run_batch(items, ms, sd, cvc5):
+            res = pool.map(solve._pool_check, [(per_func[fi][1][oi]["smt2"], ms, sd, cvc5) for fi, oi in items], chunksize=2)
+            for (fi, oi), (st, be, reason, secs) in zip(items, res):
+                ob = per_func[fi][1][oi]
+                ob["status"], ob["backend"], ob["reason"] = st, be, reason
+                ob["seconds"] = round(ob["seconds"] + secs, 3)
+
+        # vacuity guards: quick budget only
+        guards = [(fi, oi) for fi, oi in todo if per_func[fi][1][oi]["kind"] == "must_fail"]
+        real = [(fi, oi) for fi, oi in todo if per_func[fi][1][oi]["kind"] != "must_fail"]
+        run_batch(guards, 3000, seed, False)
+        run_batch(real, 4000, seed, False)
+        open_items = [(fi, oi) for fi, oi in real if per_func[fi][1][oi]["status"] != "discharged"]
+        # one representative per obligation name gets the long budgets; siblings follow only if it is discharged
+        for attempt, (ms, sd, cvc5) in enumerate([(budget, seed, True), (budget, seed + 1, False), (budget, seed + 2, False)]):
+            if not open_items:
+                break
+            reps, seen = [], set()
+            for fi, oi in open_items:
+                nm = (fi, per_func[fi][1][oi]["name"])
+                if nm not in seen:
+                    seen.add(nm)
+                    reps.append((fi, oi))
+            run_batch(reps, ms, sd, cvc5)
+            done_names = {(fi, per_func[fi][1][oi]["name"]) for fi, oi in reps if per_func[fi][1][oi]["status"] == "discharged"}
+            sib = [(fi, oi) for fi, oi in open_items if (fi, oi) not in reps and (fi, per_func[fi][1][oi]["name"]) in done_names]
+            if sib:
+                run_batch(sib, ms, sd, cvc5)
+            open_items = [(fi, oi) for fi, oi in open_items if per_func[fi][1][oi]["status"] != "discharged"]
+            if log:
+                log(f"attempt {attempt}: still open {len(open_items)}")
+        if log:
+            log(f"solved {len(real)} obligations, open: {len(open_items)} ({round(time.time() - t_all, 1)}s)")
         tasks = []
-        for out, obs, t0 in per_func:
-            g = [ob for ob in obs if ob.kind == "must_fail"]
+        for out, obs in per_func:
+            g = [ob for ob in obs if ob["kind"] == "must_fail"]
             out["must_fail_checked"] = len(g)
-            out["vacuous"] = bool(g) and all(x.status == "discharged" for x in g)
-            bases = sorted({ob.base for ob in obs if ob.kind != "must_fail" and ob.status != "discharged"})
+            groups = {}
+            for x in g:
+                groups.setdefault(x["name"], []).append(x)
+            vac = [nm for nm, xs in groups.items() if all(x["status"] == "discharged" for x in xs)]
+            out["vacuous"] = bool(vac)
+            out["vacuous_points"] = vac
+            bases = sorted({ob["base"] for ob in obs if ob["kind"] != "must_fail" and ob["status"] != "discharged"})
             if bases and do_refute and not out["unsupported"] and not out["error"]:
                 tasks.append((out["function"], bases, sidecars, tier, seed, repo))
         wit = {}
         if tasks:
             for key, w in pool.imap_unordered(refute_function, tasks):
                 wit[key] = w
-        for out, obs, t0 in per_func:
+        for out, obs in per_func:
             w = wit.get(out["function"], {})
             for ob in obs:
-                if ob.kind == "must_fail":
+                if ob["kind"] == "must_fail":
                     continue
-                d = dict(name=ob.name, base=ob.base, kind=ob.kind, tags=list(ob.tags), status=ob.status, backend=ob.backend,
-                         seconds=round(ob.seconds, 3), text=ob.text, lineno=ob.lineno, reason=ob.reason)
-                if ob.status != "discharged":
-                    d["candidates"] = w.get(ob.base, [])
-                    d["refute_error"] = w.get("__error__")
-                    d["path"] = [f"L{ln}:{what}" for ln, what in ob.path]
-                out["obligations"].append(d)
-            out["wall_s"] = round(time.time() - t0, 2)
+                ob.pop("smt2", None)
+                if ob["status"] != "discharged":
+                    ob["candidates"] = w.get(ob["base"], [])
+                    ob["refute_error"] = w.get("__error__")
+                else:
+                    ob.pop("path", None)
+                out["obligations"].append(ob)
+            out["wall_s"] = out.get("symexec_s", 0)
             results.append(out)
     return results
